@@ -9,6 +9,29 @@ Oracle: a grammar automaton over the *posted* lifecycle events (tap on EventMana
 arguments, a small reference model of balls-in-play, of pending extra balls and of the roster, driven by the order in
 which the loop processed requests and posts (never by intentions), bounded liveness of ball end / game end / restart.
 Every rule is written from the property statement; every relaxation is a named `R-...` comment below.
+
+Oracle rules (violation classes):
+  grammar                 lifecycle events are posted in exactly the nesting order game(turn(ball+)*)
+  args                    player / ball / is_extra_ball / balls_remaining of every turn and ball event; ball == round
+  rotation                players are up in order 1..n, nobody skipped, nobody twice per ball number
+  turn_count              no turn for a ball number above balls_per_game
+  game_end_early          the game does not end before the last player played the last ball number
+  turn_after_end_request  no new player turn once end_game / slam tilt was processed (before the previous turn ended)
+  extra_ball              one more ball per awarded extra ball (awarded before the turn closes), none without award
+  ball_end_cause          a ball ends only if balls in play reached zero or an end was requested *for that ball*
+  ball_not_ended/_late    ... and does end, within LIVE_BOUND, when it did (bounded liveness)
+  bip_bounds / bip_model  0 <= balls_in_play <= num_balls_known at every tap; equals the reference model at lifecycle taps
+  game_not_ended          after faults stop, holds ran out and all balls drain, the game reaches game_ended (bounded)
+  game_not_none           machine.game is None after game_ended
+  start_refused           a start request while no game is active (>= LIVE_BOUND after game_ended) starts a game
+  add_gate / max_players  roster bookkeeping: consecutive numbers, only after a granted player_add_request, a request
+                          during a ball-1 turn (below max_players, nothing in flight) is forwarded; never above max_players
+                          (these two come from the documented gate in request_player_add, not from the statement sentence)
+  current_player          game.player is the player of the running turn (checked when an extra ball is awarded)
+  crash                   no exception reaches the event loop (on_crash)
+Relaxations (statement leaves it open -> both accepted): R-aborted-start, R-end-before-first-turn, R-turn-without-ball,
+R-extra-after-end, R-roster-in-progress, R-requests-while-ending, R-add-in-flight; an end request that arrives while no
+ball is open is neither required nor allowed to end the *next* ball.
 """
 from sim.harness import draw_knobs
 
@@ -228,6 +251,8 @@ class Oracle:
         self.add_req_taps = 0
         self.add_req_taps0 = 0
         self.t_last_added = -1.0
+        self.t_last_add_req = -1.0          # instant of the last player_add_request before the current request
+        self.t_last_add_req_new = -1.0
         self.add_must = self.add_must_not = False
         self._reset_game()
 
@@ -276,6 +301,7 @@ class Oracle:
             return
         if name == "player_add_request":
             self.add_req_taps += 1
+            self.t_last_add_req_new = t
             if self.active:
                 self.pending_adds += 1
         elif name == "player_will_add":
@@ -333,12 +359,15 @@ class Oracle:
     def add_request_begin(self, deny_armed):
         """An add-player request is about to be handled by the game (same handler run, nothing interleaves)."""
         self.add_req_taps0 = self.add_req_taps
+        self.t_last_add_req = self.t_last_add_req_new
         # Documented gate (request_player_add): during ball 1, below max_players, game not ending => the request
         # is forwarded as player_add_request.  Only the unambiguous window is required: a ball-1 turn in progress.
-        # R-add-in-flight: while another player's add is still in progress the request may be refused or served.
+        # R-add-in-flight: while another player's add is still in progress (player_will_add .. player_added, or a
+        # player_add_request posted in this very instant whose answer may still be outstanding) the request may be
+        # refused or served.
         self.add_must = (self.active and self.round == 1 and not self.end_game_req and not self.slam_req
                          and self.roster_hi < self.maxp and self.roster_hi == len(self.added) and self.pending_adds == 0
-                         and self.sim.now > self.t_last_added
+                         and self.sim.now > self.t_last_added and self.sim.now > self.t_last_add_req
                          and self.phase in ("player_turn_started", "ball_will_start", "ball_starting", "ball_started",
                                             "ball_will_end", "ball_ending", "ball_ended"))
         self.add_must_not = self.active and self.round >= 2 and self.phase in (
@@ -926,8 +955,6 @@ def execute(ctx, plan):
         return
     sim.run_quiet(1.0)
     orc.check_obligations(loop.time())
-    if orc.games == 0:
-        return
     # after game_ended: no game active and a new one can start
     if m.game is not None:
         orc.v("game_not_none", "machine.game set after game_ended", "machine.game is %r after the game ended" % m.game)
